@@ -140,6 +140,9 @@ def truthy(v) -> bool | None:
     return None
 
 
+_STR_PREDICATES = ("isspace", "isdigit", "isdecimal", "isnumeric", "isalpha", "isalnum", "isascii", "isprintable", "islower", "isupper", "isidentifier", "istitle")
+
+
 def _foldable():
     import posixpath
     import urllib.parse as up
@@ -359,6 +362,10 @@ class Interp:
                     return lit(base.exact[iv.lo])
             if isinstance(base, _Elems):
                 return base.elem
+            if isinstance(base, TupleV) and not isinstance(e.slice, ast.Slice):
+                iv = self.eval(e.slice, st)
+                if isinstance(iv, IntV) and iv.lo is not None and iv.lo == iv.hi and -len(base.elts) <= iv.lo < len(base.elts):
+                    return base.elts[iv.lo]
             return TOP
         if isinstance(e, ast.Call):
             return self._call(e, st)
@@ -439,7 +446,24 @@ class Interp:
         if d == "str" and len(c.args) == 1:
             return self._to_str(self.eval(c.args[0], st))
         if d == "int":
+            if len(c.args) == 1 and not c.keywords:
+                v = self.eval(c.args[0], st)
+                if isinstance(v, StrV) and isinstance(v.exact, str):
+                    try:
+                        k = int(v.exact)
+                        return IntV(k, k)
+                    except ValueError:
+                        pass
+                if isinstance(v, IntV):
+                    return v
             return IntV(None, None)
+        if d in ("re.fullmatch", "re.match", "re.search") and len(c.args) == 2 and not c.keywords:
+            pat, subj = self.eval(c.args[0], st), self.eval(c.args[1], st)
+            if isinstance(pat, StrV) and isinstance(pat.exact, str) and isinstance(subj, StrV) and isinstance(subj.exact, str):
+                try:
+                    return ObjV("match") if getattr(re, d[3:])(pat.exact, subj.exact) is not None else NoneV()
+                except re.error:
+                    pass
         if d == "float" and len(c.args) == 1:
             v = self.eval(c.args[0], st)
             return v if isinstance(v, IntV) else IntV(None, None)
@@ -451,6 +475,8 @@ class Interp:
                 return IntV(0, v.maxb)
             if isinstance(v, _Elems):
                 return IntV(v.minlen, None)
+            if isinstance(v, TupleV):
+                return IntV(len(v.elts), len(v.elts))
             if isinstance(v, SetV):
                 return IntV(len(v.items), len(v.items))
             return IntV(0, None)
@@ -561,6 +587,22 @@ class Interp:
             return StrV(recv.kind, recv.no_cr, recv.no_lf, maxb, keep_prefix)
         if name == "splitlines":
             return _Elems(StrV(recv.kind, True, True, recv.maxb))
+        if name in ("split", "rsplit", "partition", "rpartition") and isinstance(recv.exact, str) and args and not kw:
+            # exact string, exact separator (and count): the exact parts (library fact)
+            ex = []
+            for a in args:
+                if isinstance(a, StrV) and isinstance(a.exact, str):
+                    ex.append(a.exact)
+                elif isinstance(a, IntV) and a.lo is not None and a.lo == a.hi:
+                    ex.append(a.lo)
+                else:
+                    ex = None
+                    break
+            if ex is not None:
+                try:
+                    return TupleV(tuple(lit(x) for x in getattr(recv.exact, name)(*ex)))
+                except (TypeError, ValueError):
+                    pass
         if name in ("split", "rsplit", "partition", "rpartition"):
             sep = args[0] if args else None
             no_cr, no_lf = recv.no_cr, recv.no_lf
@@ -599,7 +641,10 @@ class Interp:
         if name == "startswith" and recv.prefix is not None and args and isinstance(args[0], StrV) and isinstance(args[0].exact, str):
             if recv.prefix.startswith(args[0].exact):
                 return BoolV(True)
-        if name in ("startswith", "endswith", "isdigit", "isprintable", "isascii"):
+        if name in _STR_PREDICATES and isinstance(recv.exact, str) and not args:
+            # argument-free predicates of the str type, folded on an exact string (library fact)
+            return BoolV(getattr(recv.exact, name)())
+        if name in ("startswith", "endswith") or name in _STR_PREDICATES:
             return BoolV(None)
         return None
 
